@@ -1,7 +1,7 @@
 SPECIFICATION FairSpecC
 CONSTANTS
   P = 2
-  J = 2
+  JobIds = {0, 1}
   R = 2
   BossWorks = TRUE
 INVARIANTS AtMostOnce RealJobs
